@@ -1,6 +1,7 @@
 (* C05 - Delayed messages are never delivered early and never forgotten (in-memory broker).
    Statements only; every proof is `exact <lemma>`. *)
 From Repid Require Import Base Sched MemBroker MemProofs MemProofs2 MemProofs3.
+From Repid Require Import GenSched GenSchedProofs.
 
 (* in-memory broker, any reachable state, non-decreasing clock: a message handed to a normal consumer at now was filed under a next execution time strictly before now (microsecond resolution, hence also at millisecond resolution) *)
 Theorem C05_mem_no_early_delivery : forall h c q topics now upd s' m d,
@@ -27,8 +28,13 @@ Theorem C05_mem_update_moves_all_due : forall s q now,
   DueInv s -> Forall (fun e => de_queue e = q -> now <= de_key e) (delayed (update_delayed s q now)).
 Proof. exact update_moves_all_due. Qed.
 
+(* the source is the model: generated from /repo's current source on every run (harness/translate.py), proved equal *)
+Theorem C05_source_is_model_wait_until : forall p now, gen_wait_until_mem p now = wait_until p now.
+Proof. exact gen_wait_until_mem_eq. Qed.
+
 Print Assumptions C05_mem_no_early_delivery.
 Print Assumptions C05_mem_due_invariant.
 Print Assumptions C05_mem_not_waiting_before_due.
 Print Assumptions C05_mem_put_files_under_due.
 Print Assumptions C05_mem_update_moves_all_due.
+Print Assumptions C05_source_is_model_wait_until.
